@@ -127,6 +127,18 @@ Theorem C08_chunk_limit : (0 <? chunk_limit) && N.even chunk_limit && (0 <? chun
 Proof. vm_compute. reflexivity. Qed.
 Print Assumptions C08_chunk_limit.
 
+(* no statement of a full chunk needs more bind variables than SQLite accepts (SQLITE_MAX_VARIABLE_NUMBER of the linked
+   go-sqlite3, read from its amalgamation): e.g. CreateMessages binds 7 values per row, so ChunkLimit must stay <= 4680 *)
+Theorem C08_statement_size_ok : vars_ok sqlite_max_variable_number stmt_facts = true.
+Proof. vm_compute. reflexivity. Qed.
+Print Assumptions C08_statement_size_ok.
+
+(* the tracing wrappers (utils.ReadTracer / utils.WriteTracer, enabled by sqlite3.Trace()) hand every call on to the method
+   of the same name with the same arguments: the interface behaves the same whichever wrapper is on *)
+Theorem C08_tracer_delegates : forallb tracer_ok tracer_facts = true.
+Proof. vm_compute. reflexivity. Qed.
+Print Assumptions C08_tracer_delegates.
+
 (* flag removal compares case-insensitively *)
 Theorem C08_remove_flag_nocase : remove_flag_nocase = true.
 Proof. vm_compute. reflexivity. Qed.
